@@ -59,6 +59,11 @@ VARINT_RECEIVE = dict(harness='c04_varint_receive',
                       min_paths=2000, split=5, params={'quick': {'io_budget': 1}, 'thorough': {'io_budget': 3}},
                       conform={'quick': 200, 'thorough': 3000}, nvals=24)
 
+LENGTH_DELIMITED = dict(harness='c19_length_delimited',
+                        covers=['c19l.frame', 'c19l.bad-prefix', 'c19l.eof-in-prefix', 'c19l.eof-in-frame', 'c19l.pending'],
+                        min_paths=500, split=4, params={'quick': {'io_budget': 2}, 'thorough': {'io_budget': 4}},
+                        conform={'quick': 200, 'thorough': 3000}, nvals=16)
+
 prop('C04',
      explanation='Bounded symbolic execution of the real Substream Stream/Sink implementations over a scripted carrier whose '
                  'chunking, Pending injections and flush answers are solver-chosen; counterexamples replayed natively.',
@@ -126,6 +131,7 @@ prop('C19',
          dict(harness='c19_multistream_decode', covers=['c19.accepted', 'c19.rejected'], min_paths=30, split=5,
               params={'quick': {'max_len': 8}, 'thorough': {'max_len': 12}}, conform={'quick': 100, 'thorough': 1000}, nvals=16),
          VARINT_RECEIVE,
+         LENGTH_DELIMITED,
          dict(harness='c18_from_bytes', covers=['c18.bytes.accepted', 'c18.bytes.rejected'], min_paths=300, split=3, conform={'quick': 200, 'thorough': 3000}, nvals=8),
          dict(harness='c20_block_cid', covers=['c20.delivered', 'c20.dropped'], min_paths=1000, split=6, conform={'quick': 100, 'thorough': 2000}, nvals=10),
      ],
@@ -204,4 +210,20 @@ prop('C18',
              'key blob length': '0,1,36,41,42,43,44,100', 'byte strings': '1-2 symbolic code bytes + symbolic size byte + digest + optional trailing byte'},
      outside=['base58 text form (bs58 library)', 'serde visitor plumbing', 'ed25519 key validity', 'the SHA-256 function itself (exact for concrete inputs)'],
      assumptions=['multihash::Multihash::{wrap,from_bytes,to_bytes} are modelled (header varints decoded by the real unsigned-varint code)'],
+     )
+
+prop('C03',
+     explanation='Symbolic execution of the real multistream-select code: the message codec on fully symbolic byte strings, and complete '
+                 'dialer/listener exchanges of the message-based (WebRTC) variant for every preference list and listener set, including split '
+                 'first messages.',
+     units=[
+         dict(harness='c19_multistream_decode', covers=['c19.accepted', 'c19.rejected'], min_paths=30, split=5,
+              params={'quick': {'max_len': 8}, 'thorough': {'max_len': 12}}, conform={'quick': 100, 'thorough': 1000}, nvals=16),
+         LENGTH_DELIMITED,
+         dict(harness='c03_webrtc_negotiation', covers=['c03m.accepted', 'c03m.rejected', 'c03m.exhausted', 'c03m.pending-protocol'], min_paths=200, split=3,
+              conform={'quick': 100, 'thorough': 1000}, nvals=12),
+     ],
+     bounds={'dialer list': 'main + 0..3 fallbacks', 'listener set': 'any subset of 4 names, two orders', 'names': '2-byte names',
+             'codec input': 'quick <= 8, thorough <= 12 symbolic bytes'},
+     outside=['interoperability with the reference libp2p implementation', 'fallback->main mapping in protocol_set.rs', 'long names / lists'],
      )
